@@ -78,7 +78,9 @@ func c19collect(b *ast.Block, depth int, localNames map[string]bool, out *[]c19d
 									if fd.IsColon {
 										sep = ":"
 									}
-									*out = append(*out, c19decl{full: pn.Name + sep + key.Str, short: key.Str, loc: key.Loc, fn: true, local: localNames[pn.Name]})
+									// `t.k = function ... end` (the function expression starts after the key) as opposed to `function t.k() ... end`
+									asValue := fd.Loc.StartLine > key.Loc.StartLine || (fd.Loc.StartLine == key.Loc.StartLine && fd.Loc.StartColumn > key.Loc.StartColumn)
+									*out = append(*out, c19decl{full: pn.Name + sep + key.Str, short: key.Str, loc: key.Loc, fn: true, local: localNames[pn.Name], field: asValue})
 								}
 							}
 						}
@@ -224,6 +226,8 @@ var c19templates = []string{
 	/* 8 */ "local \x01c = nil\nlocal \x02c = {}\nfunction \x02c.load() end\nfunction \x02c:save() end\nlocal \x03h = false\nlocal function \x04h(a) end\n",
 	// members of a global table written before the statement that declares the table
 	/* 9 */ "function \x01g.load(x) end\n\x01g.dbg = true\n\x01g = {}\nfunction \x02k.run() end\n\x02k = { n = 1 }\n\x02k.more = 2\n",
+	// a global table and its members declared on one line
+	/* 10 */ "\x01r = {} function \x01r.lookup(id) end\n\x02c = { a = 1 } \x02c.k = function() end function \x02c:m() end\n",
 }
 
 func VerifRun_C19() {
